@@ -110,7 +110,11 @@ def dds_hash(x: Any) -> PyHash:
         if isinstance(elt, float):
             return _algo_bytes(struct.pack("!d", elt))
         if isinstance(elt, int):
-            return _algo_bytes(struct.pack("!l", elt))
+            if -(2 ** 31) <= elt < 2 ** 31:
+                return _algo_bytes(struct.pack("!l", elt))
+            # Integers that do not fit in 32 bits. The leading byte is never valid UTF-8 and the
+            # length is never 4 or 8, so this cannot collide with a string, a small int or a float.
+            return _algo_bytes(b"\xff" + format(elt, "x").encode("ascii"))
         if isinstance(elt, CanonicalPath):
             return _algo_str(repr(elt))
         if isinstance(elt, list):
